@@ -33,7 +33,7 @@ SPEC = {
         "C01_gen_oneLinkCore", "C01_gen_twoLinkCore", "C01_gen_threeLinkCore", "C01_gen_oneUnlinkCore", "C01_gen_twoUnlinkCore",
         "C01_gen_threeUnlinkCore",
         # Props/C02Gen.lean: the translated CMap3::one_link / one_unlink ARE the model's oneLink3 / oneUnlink3
-        "C02_gen_oneLink3", "C02_gen_oneUnlink3","C02_step_preserves_WF", "C02_history_preserves_WF", "C02_step_preserves_Mirror",
+        "C02_gen_oneLink3", "C02_gen_oneUnlink3", "C02_gen_one_links_preserve_WF_and_Mirror","C02_step_preserves_WF", "C02_history_preserves_WF", "C02_step_preserves_Mirror",
                           "C02_history_preserves_WF_and_Mirror", "C02_refusal", "C02_refusal_sew",
                           "C02_three_link_checks_shape", "C02_refused_call_changes_nothing",
                           "C02_unused_is_nobodys_image", "C02_failed_call_changes_nothing",
